@@ -1,6 +1,8 @@
 package dutysim
 
 import (
+	"errors"
+
 	"github.com/attestantio/go-eth2-client/api"
 	"github.com/attestantio/go-eth2-client/spec"
 	"github.com/attestantio/go-eth2-client/spec/altair"
@@ -29,18 +31,29 @@ type SignRec struct {
 	Snap map[spectypes.BeaconRole]RunnerSnap
 }
 
+// ErrInjected is the error returned by an injected key-manager / beacon-node fault.
+var ErrInjected = errors.New("injected failure")
+
 // KeyManager wraps the testing key manager and logs every signing call.
 type KeyManager struct {
 	spectypes.KeyManager
 	Recs []*SignRec
 	Hook func(*SignRec)
-	op   *int
+	// FailBeacon / FailRoot > 0: the next SignBeaconObject / SignRoot call fails (recorded with Err set,
+	// nothing is signed) and the counter is decremented.
+	FailBeacon, FailRoot int
+	op                   *int
 }
 
 func (k *KeyManager) SignBeaconObject(obj ssz.HashRoot, domain phase0.Domain, pk []byte, domainType phase0.DomainType) (spectypes.Signature, [32]byte, error) {
 	rec := &SignRec{Seq: len(k.Recs), Op: *k.op, Beacon: true, DomainType: domainType, Domain: domain, PK: append([]byte(nil), pk...)}
 	rec.ObjRoot, _ = obj.HashTreeRoot()
 	k.Recs = append(k.Recs, rec)
+	if k.FailBeacon > 0 {
+		k.FailBeacon--
+		rec.Beacon, rec.Err = false, ErrInjected // not a signature: kept out of BeaconSince
+		return nil, [32]byte{}, ErrInjected
+	}
 	if k.Hook != nil {
 		k.Hook(rec)
 	}
@@ -53,6 +66,11 @@ func (k *KeyManager) SignRoot(data spectypes.Root, sigType spectypes.SignatureTy
 	rec := &SignRec{Seq: len(k.Recs), Op: *k.op, SigType: sigType, PK: append([]byte(nil), pk...)}
 	rec.ObjRoot, _ = data.GetRoot()
 	k.Recs = append(k.Recs, rec)
+	if k.FailRoot > 0 {
+		k.FailRoot--
+		rec.Err = ErrInjected
+		return nil, ErrInjected
+	}
 	sig, err := k.KeyManager.SignRoot(data, sigType, pk)
 	rec.Err = err
 	return sig, err
@@ -100,7 +118,17 @@ type BeaconNode struct {
 	Fetches []*FetchRec
 	// AttestationRoot, when set, replaces the BeaconBlockRoot of served attestation data (distinct duty data per case).
 	AttestationRoot *phase0.Root
-	op              *int
+	// FailDomain > 0: the next DomainData call fails and the counter is decremented.
+	FailDomain int
+	op         *int
+}
+
+func (b *BeaconNode) DomainData(epoch phase0.Epoch, domain phase0.DomainType) (phase0.Domain, error) {
+	if b.FailDomain > 0 {
+		b.FailDomain--
+		return phase0.Domain{}, ErrInjected
+	}
+	return b.TestingBeaconNode.DomainData(epoch, domain)
 }
 
 func (b *BeaconNode) add(r *SubmitRec) { r.Op = *b.op; b.Submits = append(b.Submits, r) }
